@@ -152,6 +152,32 @@ class SliceList(Op):
         return f.sliceDimensions(**{self.d: [int(a['l0']), int(a['l1'])]})
 
 
+class SliceBool(Op):
+    """a boolean mask over one dimension (an iterable, valid numpy index):
+    which cells are kept is a symbolic bit pattern (at least one)"""
+
+    def __init__(self, d):
+        self.d = d
+        self.name = 'slice_bool(%s)' % d
+
+    def applicable(self, spec):
+        return self.d in [x[0] for x in spec.dims]
+
+    def args(self, ctx, spec):
+        n = spec.dimlen(self.d)
+        return {'bits': ctx.int('bits', 1, 2 ** n - 1)}
+
+    def conc(self, inputs, spec):
+        return {'bits': _g(inputs, 'bits', 1)}
+
+    def run(self, f, f2, a, env):
+        import numpy as real_np
+        n = len(f.dimensions[self.d])
+        b = int(a['bits'])
+        m = real_np.array([bool(b >> i & 1) for i in range(n)])
+        return f.sliceDimensions(**{self.d: m})
+
+
 class SlicePoints(Op):
     name = 'slice_points'
 
@@ -494,7 +520,8 @@ class FnMaskVals(Op):
 def catalogue(tier):
     ops = [Copy()]
     for d in ('t', 'z', 'y', 'x'):
-        ops += [SliceInt(d), SliceSlice(d), SliceList(d), ApplyRed(d, 'mean'),
+        ops += [SliceInt(d), SliceSlice(d), SliceList(d), SliceBool(d),
+                ApplyRed(d, 'mean'),
                 ApplyRed(d, 'max'), ApplyDiff(d), Stack(d)]
         if tier == 'thorough':
             ops += [SliceSlice(d, -1), SliceSlice(d, 2), ApplyRed(d, 'sum'),
